@@ -151,7 +151,7 @@ def build_bundle(rec):
         m = rng.uniform(lo, hi, size=(K, K))
         return (m + m.T) / 2
 
-    arr(".KK", sym(0.9, 1.3), "sigmas")
+    arr(".KK", sym(0.9, 1.3) if rng.random() < 0.7 else sym(0.4, 1.6), "sigmas")      # now and then strongly non-additive
     arr(".eps", sym(0.5, 1.5), "epsilons")
     arr(".rcut", sym(0.28, 0.42) * float(L.min()), "rcuts")
     out.append((".diam", "dict", {int(k): float(rng.uniform(0.8, 1.2)) for k in range(1, K + 1)}, {"role": "diameters"}))
@@ -181,7 +181,10 @@ def build_bundle(rec):
     M = int(rng.integers(2, 6))
     arr(".eigf", rng.uniform(0.5, 3.0, size=M), "eigfreq")
     arr(".eigv", rng.normal(0, 1, size=(N * ndim, M)), "eigvec")
-    arr(".gofr", rng.uniform(0.2, 2.0, size=15), "gr_values")
+    gofr = rng.uniform(0.2, 2.0, size=15)
+    if rng.random() < 0.6:
+        gofr[: int(rng.integers(1, 5))] = 0.0          # the excluded core: exactly empty bins, as a measured g(r) has
+    arr(".gofr", gofr, "gr_values")
     arr(".rbins", (np.arange(15) + 0.5) * 0.1, "gr_bins")
     return out
 
@@ -221,7 +224,10 @@ def nlfiles(w, sname, weights=False, kinds=("nn", "cut", "vor"), need_cn=True):
     out = []
     for p, f in w.files.items():
         if f["kind"] == ("weights" if weights else "nl") and f["snaps"] == b and (weights or f["nlkind"] in kinds) \
-                and (not need_cn or f.get("mincn", 1) >= 1):
+                and (not need_cn or f.get("mincn", 1) >= 1 or f.get("src", 1) % 2 == 0):
+            # (lists with isolated particles - coordination number zero - give NaN or an error in
+            # most consumers, with and without history; every other such file is offered anyway:
+            # the edge case is where in-place "repairs" of a list live)
             out.append(p)
     return sorted(out)
 
